@@ -22,6 +22,7 @@ enabled in the model (trace inclusion), `bad@n:tok` otherwise.
         namespace) | n (declaration xmlns:NAME), NAME i (id) | t (type), value (digit | r e g t),
         place b (in front of the stanza's own attributes) | a (behind them)
       g serve loop enters the hand-off select   h serve loop starts waiting for the close
+      A<k> the serve loop gave up the hand-off of stanza k (waiter gone) and the handler got it
       C the application closes the output stream (later transmissions fail before they write)
       f<i> right after c<i> on a broken / closed output: the call failed at once
     C06 rcpt <ids> <trace>      ids `,`-joined, tokens: c o f x s as above, T<i> returned nil,
@@ -149,10 +150,17 @@ def applyTok (cfg : Cfg) (s : St) (tok : String) : Option St :=
     let after ← parseDecoys 'a' decoy
     let (i?, t?) := CorrAttrs.getIDTyp (before ++ own ++ after)
     let id ← i?
-    step cfg (settle cfg s) (.read ⟨kind, id, CorrAttrs.isResponse t?, ns, bad⟩)
+    step cfg s (.read ⟨kind, id, CorrAttrs.isResponse t?, ns, bad⟩)
   | 'H' :: r => do
     let k ← numOf r
     if s.hlog.head? = some k then some s else none
+  | 'A' :: r => do
+    -- the serve loop gave up the hand-off of stanza k (the waiter's context is done) and the
+    -- handler got the stanza
+    let k ← numOf r
+    match s.spc with
+    | .offering _ k' => if k = k' then step cfg s .abandon else none
+    | _ => none
   | ['C'] => step cfg s .closeOut
   | ['g'] => match s.spc with
     | .offering .. => some s
@@ -215,7 +223,17 @@ def autoEvents (cfg : Cfg) (n : Nat) (g : GState) : Nat → GState
     let pick := cand.find? fun i =>
       (match s.spc with | .offering j _ => j == i && g.entered | _ => false) || s.cancelled i
     match pick with
-    | none => g
+    | none =>
+      -- nobody can take the response, the waiter's context is done, the serve loop is in its
+      -- select: it gives up and the handler gets the stanza
+      match s.spc with
+      | .offering j k =>
+        if g.entered && ctxDone cfg s j && !(g.insel.contains j && s.rpc j == .waiting) then
+          match step cfg s .abandon with
+          | some s' => autoEvents cfg n { g with st := s', entered := false, trace := s!"A{k}" :: g.trace } fuel
+          | none => g
+        else g
+      | _ => g
     | some i =>
       let canRecv := match s.spc with | .offering j _ => j == i && g.entered | _ => false
       let canTime := s.cancelled i
@@ -267,7 +285,6 @@ def enabled (cfg : Cfg) (reqs : List (Kind × Nat × Ns)) (g : GState) : List St
     (match s.rpc i with | .done (.reply _) false => [s!"k{i}", s!"d{i}"] | .done (.reply _) true => (if g.drained.contains i then [] else [s!"k{i}"]) | _ => [])
   let serveFree := match s.spc with
     | .idle => !g.handed
-    | .offering j _ => g.entered && ctxDone cfg s j
     | _ => false
   let peers := if serveFree then
       (peerAlphabet reqs).filter fun t =>
@@ -305,7 +322,7 @@ def applyAction (cfg : Cfg) (n : Nat) (g : GState) (tok : String) : Option GStat
         else g1
       | none => g1
     | _ => g1
-  pure (autoEvents cfg n g2 (2 * n + 2))
+  pure (autoEvents cfg n g2 (2 * n + 3))
 
 def lcg (x : Nat) : Nat := (x * 6364136223846793005 + 1442695040888963407) % 18446744073709551616
 
